@@ -15,7 +15,7 @@
    absent) by running the malformed stream under ASan/UBSan/LSan.
    Termination is structural (every model function is a Fixpoint on its input). *)
 From Coq Require Import ZArith List Bool.
-From VV Require Import Csv.CsvDefs Csv.SafeProofs.
+From VV Require Import Csv.CsvDefs Csv.SafeProofs Csv.HistoryDefs Csv.HistoryProofs.
 Import ListNotations.
 Local Open Scope Z_scope.
 
@@ -53,6 +53,50 @@ Theorem C10_terminals_fetch_safe_partial :
          (v_id vi < length (e_input e))%nat /\ safe (run_variable vi e)).
 Proof. exact terminals_fetch_safe_lemma. Qed.
 Print Assumptions C10_terminals_fetch_safe_partial.
+
+(* READS ON A FRAME THAT ALREADY HAS STATE (dataframe::clear() keeps columns and class map):
+   for ANY existing frame, text, parameters -- the output index is an unbounded nat, i.e.
+   every std::size_t value up to SIZE_MAX: the repaired code only compares it with
+   record.size() before using it -- the read never goes out of bounds. *)
+Theorem C10_read_csv_on_total_safe_partial :
+  forall is_number stod stoi (df0 : dataframe) (text : bytes) (p : params),
+  safe (read_csv_on is_number stod stoi fixed_v df0 text p)
+  /\ (forall df, read_csv_on is_number stod stoi fixed_v df0 text p = Ok df ->
+        is_valid df = Ok true /\ dataset df <> [] /\ uniform_input_width df).
+Proof. exact read_csv_on_total_safe_lemma. Qed.
+Print Assumptions C10_read_csv_on_total_safe_partial.
+
+(* read_xrff on ANY existing frame and ANY DOM; [uint_max] is the value of the unsigned
+   `index - 1` when the attribute list is empty (0u - 1): the theorem holds for EVERY value,
+   in particular 2^32 - 1. *)
+Theorem C10_read_xrff_on_total_safe_partial :
+  forall is_number stod stoi uint_max (df0 : dataframe) (dom : xdom) (flt : filter_t),
+  safe (read_xrff_on is_number stod stoi uint_max fixed_v df0 dom flt)
+  /\ (forall df n, read_xrff_on is_number stod stoi uint_max fixed_v df0 dom flt = Ok (df, n) ->
+        n = 0%nat \/ (n = length (dataset df) /\ is_valid df = Ok true /\ uniform_input_width df)).
+Proof. exact read_xrff_on_total_safe_lemma. Qed.
+Print Assumptions C10_read_xrff_on_total_safe_partial.
+
+(* any sequence of CSV / XRFF reads on one object *)
+Theorem C10_run_history_safe_partial :
+  forall is_number stod stoi uint_max (steps : list read_step) (df0 : dataframe),
+  safe (run_history is_number stod stoi uint_max fixed_v df0 steps).
+Proof. exact run_history_safe_lemma. Qed.
+Print Assumptions C10_run_history_safe_partial.
+
+(* on a fresh frame the history readers ARE the plain readers *)
+Theorem C10_history_readers_extend_plain :
+  (forall is_number stod stoi v text p, read_csv_on is_number stod stoi v empty_df text p = read_csv is_number stod stoi v text p)
+  /\ (forall is_number stod stoi uint_max v dom flt,
+        read_xrff_on is_number stod stoi uint_max v empty_df dom flt = read_xrff is_number stod stoi v dom flt).
+Proof. exact (conj read_csv_on_empty read_xrff_on_empty). Qed.
+Print Assumptions C10_history_readers_extend_plain.
+
+(* non-vacuity of the history theorems: without the guards (pinned variant) a second read_xrff
+   with an EMPTY attribute list on a frame that has columns, and read_csv with an output index
+   beyond the record, are out of bounds; with them they return normally / throw *)
+Example C10_history_nonvacuous :=
+  (hx_history_pinned_oob, hx_history_fixed_ok, hx_xrff_fresh_pinned, hx_csv_pinned_oob, hx_csv_fixed_exn).
 
 (* non-vacuity: the three outcomes occur, and the checked model does
    distinguish in-bounds from out-of-bounds (the pinned variant is OOB on the
